@@ -187,7 +187,7 @@ pub fn run(run: &mut Run) {
     let tier = run.tier;
     let mut sp = request_spaces(tier);
     sp.extend(response_spaces(tier));
-    sp.extend(vendor_spaces(tier));
+    sp.extend(vendor_spaces(tier, false));
     for s in &sp {
         // the 2^32 IANA space (thorough) is C08's; C01 takes it at one pair only
         // ... and the encoders whose output lands in a known decode-panic class at two pairs
@@ -197,6 +197,8 @@ pub fn run(run: &mut Run) {
             Addrs::List(vec![(0x23, 0x34)])
         } else if panicky {
             Addrs::List(vec![(0x23, 0x34), (0x7F, 0x7F)])
+        } else if tier.thorough() {
+            super::encprops::addr_lanes()
         } else {
             five_pairs()
         };
